@@ -404,10 +404,11 @@ impl Eraser {
         let mut out = vec![];
         let mut seen_non_directive = false;
         let mut let_removed = false;
+        let directives = list.iter().filter(|s| !self.is_injected_let(s)).take_while(|s| Self::is_directive(s)).count();
         for s in list {
             if !let_removed && self.is_injected_let(s) {
                 let names: Vec<Value> = s["declarations"].as_array().unwrap().iter().map(|d| d["id"]["value"].clone()).collect();
-                self.lets.push(json!({"names": names, "span": span_of(s), "afterNonDirective": seen_non_directive, "index": out.len()}));
+                self.lets.push(json!({"names": names, "span": span_of(s), "afterNonDirective": seen_non_directive, "index": out.len(), "directives": directives}));
                 let_removed = true;
                 continue;
             }
